@@ -110,6 +110,39 @@ def main():
                         fails.append({"what": "finalized files changed by a later session: %s" % changed[:3], "case": tag}); break
             if fails:
                 break
+            # ---- a session that starts EARLIER in a subdirectory and writes forward must still be refused at a file period an earlier
+            #      session finalized there (the finalized file is not the first file this writer creates in that subdirectory)
+            if (S * 1000) // F >= 3 and rnd.random() < 0.6:
+                ch2 = os.path.join(tops[0], "later")
+                os.makedirs(ch2)
+                sub_ms = ((t0 // (S * 1000)) + 7) * S * 1000
+                A = lambda p_: -((-(sub_ms + p_ * F) * n) // (1000 * d))
+                st = A(0)
+                wa = digital_rf.DigitalRFWriter(ch2, np.int32, S, F, st, n, d, uuid_str="first", is_complex=False, is_continuous=False, marching_periods=False)
+                wa.rf_write(np.arange(7000, 7003, dtype=np.int32), A(1) - st)
+                wa.close()
+                before = snap(ch2)
+                cases += 1
+                wb = digital_rf.DigitalRFWriter(ch2, np.int32, S, F, st, n, d, uuid_str="second", is_complex=False, is_continuous=False, marching_periods=False)
+                wb.rf_write(np.arange(8000, 8002, dtype=np.int32), 0)
+                try:
+                    wb.rf_write(np.arange(8100, 8102, dtype=np.int32), A(1) - st + 4)
+                    fails.append({"what": "a writer that started earlier in the subdirectory wrote into a file period finalized by an earlier session", "case": tag}); break
+                except (RuntimeError, ValueError):
+                    pass
+                try:
+                    wb.rf_write(np.arange(8200, 8202, dtype=np.int32), A(2) - st)
+                except Exception as e:
+                    fails.append({"what": "after the refused write the writer could not write a later period: %r" % (e,), "case": tag}); break
+                wb.close()
+                after = snap(ch2)
+                changed = [f for f in before if f not in after or after[f] != before[f]]
+                if changed:
+                    fails.append({"what": "finalized files changed or vanished after a later session: %s" % changed[:3], "case": tag}); break
+                r2 = digital_rf.DigitalRFReader(tops[0])
+                got = r2.read(A(1), A(1) + 2, "later")
+                if [(int(k), [int(x) for x in np.asarray(v).ravel()]) for k, v in got.items()] != [(A(1), [7000, 7001, 7002])]:
+                    fails.append({"what": "samples of the earlier session read back as %s" % {int(k): [int(x) for x in np.asarray(v).ravel()] for k, v in got.items()}, "case": tag}); break
             r = digital_rf.DigitalRFReader(tops if len(tops) > 1 else tops[0])
             lo, hi = min(model), max(model)
             b = r.get_bounds("ch")
